@@ -6,6 +6,8 @@ import Mathlib.Tactic.Linarith
 import Mathlib.Tactic.Ring
 import PV.Model.Combine
 import PV.Proofs.C05Lemmas
+import PV.Proofs.C05bLemmas
+import PV.Props.C04
 import PV.Proofs.RealScalar
 
 namespace PV
@@ -154,6 +156,68 @@ theorem c05_merge_union (l : List (Obs ℝ)) (o : Obs ℝ) (h : mergeObs l = .ok
     (∀ x ∈ l, ∀ r ∈ x.reps, ∀ c ∈ r.idl.toList, ∃ s, sampleAt x r.name c = some s ∧ sampleAt o r.name c = some s) ∧
     (∀ n ∈ o.names, ∃ x ∈ l, n ∈ x.names) ∧ o.reweighted = l.any (·.reweighted) := by
   exact C05.merge_union l o h hwf
+
+open Gen.Grads in
+/-- the quotient step of `reweight`: value and fluctuations of `wo / nrm` -/
+theorem c05_reweight_quotient (wo nrm res : Obs ℝ) (h : C05.rwDiv wo nrm = .ok res)
+    (hwf : wo.WF = true ∧ nrm.WF = true) :
+    res.value = wo.value / nrm.value ∧ res.reweighted = true ∧
+    ∀ n ∈ newSampleNames [wo, nrm], ∀ c ∈ Spec.unionCfgs [wo, nrm] n,
+      res.delta? n c = some (Spec.delta [1 / nrm.value, -wo.value / nrm.value ^ 2] [wo, nrm] n c) := by
+  unfold C05.rwDiv at h
+  have hs : findSite "truediv_obs" = some truediv_obs := rfl
+  rw [hs] at h
+  simp only at h
+  split at h
+  · rename_i r hr
+    cases h
+    unfold applySite at hr
+    have hg : truediv_obs.gradTerms = some [(.div (.num 1) (.var 1)), (.div (.neg (.var 0)) (.pow (.var 1) (.num 2)))] := rfl
+    rw [hg] at hr
+    simp only at hr
+    have hv := c01_value _ _ _ _ _ hr
+    have hd := c01_delta _ _ _ _ _ (by intro x hx; simp at hx; rcases hx with rfl | rfl; exact hwf.1; exact hwf.2) (by simp) hr
+    refine ⟨?_, rfl, ?_⟩
+    · show r.value = _
+      rw [hv]
+      refine ((c01_func_table _ _).2.2.2.1).trans ?_
+      simp
+    · intro n hn c hc
+      show r.delta? n c = _
+      rw [hd n hn c hc]
+      congr 2
+      site_simp [List.map]
+      norm_num
+  · cases h
+
+/-- C05 (reweight): an accepted `reweight(w, [o], all_configs=ac)` is the quotient ⟨w·o⟩ / ⟨w⟩:
+    `wo` carries, on every configuration number of every chain of `o`, the product of the samples
+    of `w` and `o` on that same configuration number (never by array position); the normalisation
+    is `w` itself (`all_configs`) or `w` restricted to o's configurations; the result has value
+    `wo.value / nrm.value`, the fluctuations of that quotient, and the reweighted flag. -/
+theorem c05_reweight_formula (w o res : Obs ℝ) (ac : Bool) (h : reweight1 w o ac = .ok res)
+    (hwf : w.WF = true ∧ o.WF = true) :
+    ∃ wo nrm : Obs ℝ,
+      wo.names = o.names ∧
+      (∀ r ∈ o.reps, ∀ c ∈ r.idl.toList, ∃ x y, sampleAt w r.name c = some x ∧
+        sampleAt o r.name c = some y ∧ sampleAt wo r.name c = some (x * y)) ∧
+      (ac = true → nrm = w) ∧
+      (ac = false → nrm.names = o.names ∧ ∀ r ∈ o.reps, ∀ c ∈ r.idl.toList, ∃ x,
+        sampleAt w r.name c = some x ∧ sampleAt nrm r.name c = some x) ∧
+      res.value = wo.value / nrm.value ∧ res.reweighted = true ∧
+      ∀ n ∈ newSampleNames [wo, nrm], ∀ c ∈ Spec.unionCfgs [wo, nrm] n,
+        res.delta? n c = some (Spec.delta [1 / nrm.value, -wo.value / nrm.value ^ 2] [wo, nrm] n c) := by
+  obtain ⟨wo, nrm, hn, ⟨S, hmk⟩, hprod, hac1, hac0, hdiv⟩ := C05.reweight_formula w o res ac h hwf
+  have hstep : ∀ il, some (o.reps.map (·.idl)) = some il → ∀ s n st, Idl.range s n st ∈ il → st ≠ 0 := by
+    intro il e; cases e; exact C04.range_step_of_wf o hwf.2
+  have hwo : wo.WF = true := c04_wf_implies _ (c04_mk_wf_corrected _ _ _ wo hstep hmk)
+  have hnrm : nrm.WF = true := by
+    cases ac with
+    | true => rw [hac1 rfl]; exact hwf.1
+    | false =>
+      obtain ⟨⟨S', hmk'⟩, _⟩ := hac0 rfl
+      exact c04_wf_implies _ (c04_mk_wf_corrected _ _ _ nrm hstep hmk')
+  exact ⟨wo, nrm, hn, hprod, hac1, fun e => (hac0 e).2, c05_reweight_quotient wo nrm res hdiv ⟨hwo, hnrm⟩⟩
 end real
 
 
